@@ -1,6 +1,8 @@
 import HioModel.Basic.Sexp
 import HioModel.Sched.Model
 import HioModel.Sched.Runs
+import HioModel.Sched.Model2
+import HioModel.Sched.Model3
 import HioModel.Sched.TimeModel
 /-! Driver: `(run (tock b) (start b) (limit -|b) (fuel n) (pool (spec..)) (specs (spec..)))`
 → `((trace (id kind tymebits [ids])..) (late 0) (flags (id t|f)..) (done b) (tyme bits) (raised -|err) (doers (ids)))`.
@@ -187,7 +189,106 @@ def runsReq (fs : List Sexp) : Option Sexp := do
   let calls ← (← list? (← field1 "calls" fs)).mapM runSpec?
   some (.list (sym "runs" :: runsOut calls (runSeq tock fuel start limit calls) []))
 
+/-! ### `(run2 ..)`: second-generation model (exception kinds, action faults), HioModel/Sched/Model2.lean -/
+
+def exn2? : Sexp → Option Hio.Sched2.Exn2
+  | .atom "raise" => some .err
+  | .atom "fail" => some .err
+  | .atom "kbint" => some .kbint
+  | .atom "sysexit" => some .sysexit
+  | _ => none
+
+def out2? : Sexp → Option (Hio.Sched2.Out2 Float)
+  | .list [.atom "yield", .atom "-"] => some (.yieldT none)
+  | .list [.atom "yield", t] => (fl? t).map (fun x => .yieldT (some x))
+  | .list [.atom "ret", v] => (optBool? v).map Hio.Sched2.Out2.ret
+  | a => (exn2? a).map Hio.Sched2.Out2.raise
+
+def step2? : Sexp → Option (Hio.Sched2.Step2 Float)
+  | .list [.list ops, o] => do
+      let ops ← ops.mapM op?
+      let o ← out2? o
+      some ⟨ops, o⟩
+  | _ => none
+
+def act2? : Sexp → Option Hio.Sched2.EnterAct2
+  | .atom "ok" => some .ok
+  | .list [.atom "done", v] => (optBool? v).map Hio.Sched2.EnterAct2.done
+  | a => (exn2? a).map Hio.Sched2.EnterAct2.fail
+
+mutual
+partial def spec2? : Sexp → Option (Hio.Sched2.Spec2 Float)
+  | .list [.atom "leaf", i, _shape, a, .list steps, cf] => do
+      let i ← nat? i; let a ← act2? a; let st ← steps.mapM step2?; let cf ← bool? cf
+      some (.leaf i a st cf)
+  | .list [.atom "group", i, tock, always, .list kids, .list pool, cf] => do
+      let i ← nat? i; let t ← fl? tock; let al ← bool? always
+      let ks ← kids.mapM spec2?; let ps ← pool.mapM spec2?; let cf ← bool? cf
+      some (.group i t al ks ps cf)
+  | _ => none
+end
+
+def run2Req (fs : List Sexp) : Option Sexp := do
+  let tock ← fl? (← field1 "tock" fs)
+  let start ← fl? (← field1 "start" fs)
+  let lim ← field1 "limit" fs
+  let limit ← (match lim with | .atom "-" => some none | s => (fl? s).map some)
+  let fuel ← nat? (← field1 "fuel" fs)
+  let pool ← (← list? (← field1 "pool" fs)).mapM spec2?
+  let specs ← (← list? (← field1 "specs" fs)).mapM spec2?
+  let f := Hio.Sched2.doistDo pool tock start limit fuel specs
+  let ids := sortNat (Hio.Sched2.Spec2.idsL specs ++ Hio.Sched2.Spec2.idsL pool)
+  let r := if f.fuelOut then "fuelOut" else match f.raised with
+    | none => "-" | some .err => "err" | some .kbint => "kbint" | some .sysexit => "sysexit"
+  some (.list [
+    tag "trace" [.list ((visible f.evs).map evS)],
+    tag "late" [ofNat 0],
+    tag "flags" [.list (ids.map fun i => .list [ofNat i, ofBool (finalFlag f.evs i)])],
+    tag "done" [ofBool f.done],
+    tag "tyme" [ofFl f.tyme],
+    tag "raised" [sym r],
+    tag "doers" [.list (f.doers.map ofNat)]])
+
+/-! ### `(run3 ..)`: third-generation model (ops issued from cease / exit actions), HioModel/Sched/Model3.lean -/
+
+mutual
+partial def spec3? : Sexp → Option (Hio.Sched3.Spec3 Float)
+  | .list [.atom "leaf", i, _shape, a, .list steps, cf, .list co, .list eo] => do
+      let i ← nat? i; let a ← act2? a; let st ← steps.mapM step2?; let cf ← bool? cf
+      let co ← co.mapM op?; let eo ← eo.mapM op?
+      some (.leaf i a st cf co eo)
+  | .list [.atom "group", i, tock, always, .list kids, .list pool, cf] => do
+      let i ← nat? i; let t ← fl? tock; let al ← bool? always
+      let ks ← kids.mapM spec3?; let ps ← pool.mapM spec3?; let cf ← bool? cf
+      some (.group i t al ks ps cf)
+  | _ => none
+end
+
+def run3Req (fs : List Sexp) : Option Sexp := do
+  let tock ← fl? (← field1 "tock" fs)
+  let start ← fl? (← field1 "start" fs)
+  let lim ← field1 "limit" fs
+  let limit ← (match lim with | .atom "-" => some none | s => (fl? s).map some)
+  let fuel ← nat? (← field1 "fuel" fs)
+  let cf ← nat? (← field1 "cfuel" fs)
+  let pool ← (← list? (← field1 "pool" fs)).mapM spec3?
+  let specs ← (← list? (← field1 "specs" fs)).mapM spec3?
+  let f := Hio.Sched3.doistDo cf pool tock start limit fuel specs
+  let ids := sortNat (Hio.Sched3.Spec3.idsL specs ++ Hio.Sched3.Spec3.idsL pool)
+  let r := if f.fuelOut || f.starved then "fuelOut" else match f.raised with
+    | none => "-" | some .err => "err" | some .kbint => "kbint" | some .sysexit => "sysexit"
+  some (.list [
+    tag "trace" [.list ((visible f.evs).map evS)],
+    tag "late" [ofNat 0],
+    tag "flags" [.list (ids.map fun i => .list [ofNat i, ofBool (finalFlag f.evs i)])],
+    tag "done" [ofBool f.done],
+    tag "tyme" [ofFl f.tyme],
+    tag "raised" [sym r],
+    tag "doers" [.list (f.doers.map ofNat)]])
+
 def handle : Sexp → Sexp
+  | .list (.atom "run3" :: fs) => (run3Req fs).getD (sym "bad-request")
+  | .list (.atom "run2" :: fs) => (run2Req fs).getD (sym "bad-request")
   | .list (.atom "runs" :: fs) => (runsReq fs).getD (sym "bad-request")
   | .list [.atom "unmodelled"] => .list [.atom "unmodelled"]   -- implementation-side-only case (see harness/areas/sched.py unmodelled())
   | .list (.atom "run" :: fs) => match runReq fs with
